@@ -27,7 +27,8 @@ def subimage(ctx, det, center, shape):
 
 
 @op('points_from_grid')
-def points_from_grid(ctx, det, perm_seed, k=None, optics_from=True):
+def points_from_grid(ctx, det, perm_seed, k=None, optics_from=True,
+                     tilt=None, only=None):
     """detector_points listing (a subset of) the grid's coordinates in a
     seeded permutation (local RandomState)."""
     import holopy as hp
@@ -40,8 +41,15 @@ def points_from_grid(ctx, det, perm_seed, k=None, optics_from=True):
     order = rs.permutation(len(xs))
     if k is not None:
         order = order[:k]
-    pts = hp.detector_points(x=xs[order], y=ys[order],
-                             z=zs[order].astype(float), name=d.name)
+    zz = zs[order].astype(float)
+    if tilt is not None:
+        # a detector that is very slightly tilted: z varies with x
+        zz = zz + tilt * (xs[order] - xs.min())
+    xo, yo = xs[order], ys[order]
+    if only is not None:
+        sel = [i % len(xo) for i in only]
+        xo, yo, zz = xo[sel], yo[sel], zz[sel]
+    pts = hp.detector_points(x=xo, y=yo, z=zz, name=d.name)
     if optics_from:
         kw = {a: d.attrs.get(a) for a in
               ('medium_index', 'illum_wavelen', 'illum_polarization',
